@@ -2,13 +2,27 @@
    (Model/GenCache.v, property C09, ends a history at the first exception; this file models what is left behind.)
 
    A call key k : nat stands for (generator identity, parameter value).  `calls k` are the nested generator calls the body
-   of k makes, in order.  The oracle  gf k n  says how the n-th execution of the body of k ends:
-     None   — it returns a Module;      Some i — it raises after its first i nested calls.
-   `cleanup = true` is the repaired code (try/finally, fix C08-2), `cleanup = false` the pinned code, literally. *)
+   of k makes, in order; `cached k` is the generator's `enable_cache`.  The oracle  gf k n  says how the n-th execution of
+   the body of k ends:
+     None            — it returns a Module;
+     Some (i, kind)  — it ends after its first i nested calls with a failure of that KIND:
+                       0 an `Exception` raised by the body, 1 the body returns something that is no Module (refused by
+                       `_generate` with a RuntimeError), >= 2 a `BaseException` that is NOT an `Exception`
+                       (KeyboardInterrupt, SystemExit, a test framework's outcome, asyncio.CancelledError, GeneratorExit).
+   The bookkeeping policy:
+     GFinally  — the repaired code (try/finally, fix C08-2): every way a call ends is cleaned up after;
+     GExcOnly  — `except Exception: pending.remove(call); raise` instead of `finally` (the stack is still popped in the outer
+                 `finally`): what a seeded change did; refuted in Props/C08.v;
+     GNever    — the pinned code, literally (removal / pop on the success path only). *)
 Require Import Hdl21.Base.PyInt.
 Open Scope list_scope.
 
-Inductive gerr := GE (k : nat) | GCycle (k : nat) | GFuel.
+Inductive gerr := GE (k kind : nat) | GCycle (k : nat) | GFuel.
+Inductive gpol := GFinally | GExcOnly | GNever.
+
+(* is this failure outside `Exception`? *)
+Definition kind_base (kind : nat) : bool := Nat.leb 2 kind.
+Definition gerr_base (e : gerr) : bool := match e with GE _ kind => kind_base kind | _ => false end.
 
 Record gst := {
   gdone : list nat;      (* Cache.done (keys) *)
@@ -33,41 +47,48 @@ Fixpoint gfold (r : gst -> nat -> gst * option gerr) (s : gst) (ks : list nat) :
   end.
 
 Section Gen.
-Variable cleanup : bool.
+Variable pol : gpol.
+Variable cached : nat -> bool.
 Variable calls : nat -> list nat.
-Variable gf : nat -> nat -> option nat.
+Variable gf : nat -> nat -> option (nat * nat).
 
 Definition push (k : nat) (s : gst) : gst :=
   {| gdone := gdone s; gpend := gpend s; gstack := k :: gstack s; gruns := gruns s |}.
 Definition pop (s : gst) : gst :=
   {| gdone := gdone s; gpend := gpend s; gstack := tl (gstack s); gruns := gruns s |}.
+(* `pending.add(call)` (cached generators only) and the ghost log of the body execution *)
 Definition start (k : nat) (s : gst) : gst :=
-  {| gdone := gdone s; gpend := k :: gpend s; gstack := gstack s; gruns := k :: gruns s |}.
+  {| gdone := gdone s; gpend := if cached k then k :: gpend s else gpend s; gstack := gstack s; gruns := k :: gruns s |}.
 Definition unp (k : nat) (s : gst) : gst :=
-  {| gdone := gdone s; gpend := grem k (gpend s); gstack := gstack s; gruns := gruns s |}.
+  {| gdone := gdone s; gpend := if cached k then grem k (gpend s) else gpend s; gstack := gstack s; gruns := gruns s |}.
 Definition finish (k : nat) (s : gst) : gst :=
-  {| gdone := k :: gdone s; gpend := gpend s; gstack := gstack s; gruns := gruns s |}.
-(* what the `finally` clauses do when the call ends with an exception *)
-Definition unwind (k : nat) (s : gst) : gst := if cleanup then pop (unp k s) else s.
+  {| gdone := if cached k then k :: gdone s else gdone s; gpend := gpend s; gstack := gstack s; gruns := gruns s |}.
+(* what the `finally` / `except` clauses do when the call ends with the exception e *)
+Definition unwind (k : nat) (e : gerr) (s : gst) : gst :=
+  match pol with
+  | GFinally => pop (unp k s)
+  | GExcOnly => if gerr_base e then pop s else pop (unp k s)
+  | GNever => s
+  end.
 
 Fixpoint grun (fuel : nat) (s : gst) (k : nat) : gst * option gerr :=
   match fuel with
   | O => (s, Some GFuel)
   | S n =>
-      if gmem k (gdone s) then (s, None) else                        (* cache hit: the body is not run *)
-      if gmem k (gpend s)
-      then (if cleanup then s else push k s, Some (GCycle k))        (* pushed on the stack before the check *)
+      if cached k && gmem k (gdone s) then (s, None) else             (* cache hit: the body is not run *)
+      if cached k && gmem k (gpend s)
+      then (match pol with GNever => push k s | _ => s end, Some (GCycle k))   (* pushed on the stack before the check *)
       else
         let s1 := start k (push k s) in
         match gf k (gcount k (gruns s)) with
-        | Some i =>
+        | Some (i, kind) =>
             match gfold (grun n) s1 (firstn i (calls k)) with
-            | (s2, Some e) => (unwind k s2, Some e)
-            | (s2, None) => (unwind k s2, Some (GE k))               (* the body raised *)
+            | (s2, Some e) => (unwind k e s2, Some e)
+            | (s2, None) => (unwind k (GE k kind) s2, Some (GE k kind))      (* the body raised / returned no Module *)
             end
         | None =>
             match gfold (grun n) s1 (calls k) with
-            | (s2, Some e) => (unwind k s2, Some e)
+            | (s2, Some e) => (unwind k e s2, Some e)
             | (s2, None) => (finish k (pop (unp k s2)), None)
             end
         end
